@@ -7,8 +7,6 @@ from props import c01
 
 ID = "C12"
 PROP_FILE = "Props/C12.v"
-THEOREMS = ["C12_fold_ascii_only", "C12_str_fold", "C12_non_ascii_exact", "C12_flag", "C12_insensitive_iff",
-            "C12_sensitive_exact", "C12_unicode_examples", "C12_nonvacuous"]
 RULE = ("definitions: enum flag on/off x variant flag {absent, bare keyword, = true, = false} x spellings with ASCII letters, "
         "non-ASCII letters (é/É, ß, Kelvin sign, long s, dotless i, ligatures), digits, caseless and empty spellings, NonOverlap by "
         "the model's predicate; inputs: ALL 2^k ASCII case flips of every spelling (k <= 8 quick / 12 thorough, sampled beyond), each "
